@@ -58,7 +58,13 @@ const (
 )
 
 // counter-asset denominations known to the coinswap whitelist of the harness genesis
-var chainDenoms = []string{"ausdc", "abtc", "ibc/ETH", "aeth"}
+// (twelve of them: ten or more pools are needed before "lpt-10" sorts below "lpt-9")
+var chainDenoms = []string{"ausdc", "abtc", "ibc/ETH", "aeth", "atk05", "atk06", "atk07", "atk08", "atk09", "atk10", "atk11", "atk12"}
+
+// genesis time of the harness chain. The replica suite anchors it a little in the past of the WALL CLOCK on purpose:
+// deadlines and other block-time-scale values then straddle the wall-clock instants at which the replicas (some run
+// seconds later, in other processes) execute the same block, so code that consults the wall clock diverges visibly.
+var chainGenTime = time.Unix(1_700_000_000, 0).UTC()
 
 // coins that exist in the bank but are not whitelisted in coinswap (RegisterCoin candidates, rejected adds)
 var extraDenoms = []string{"ucoin", "zjunk", "anote"}
@@ -83,7 +89,7 @@ func pow10i(n int) sdkmath.Int { return sdkmath.NewIntWithDecimal(1, n) }
 // NewChainCfg builds the genesis. variant (from the PRNG) perturbs the Canto parameters so that different seeds start
 // from different parameter settings.
 func NewChainCfg(nUsers int, r *Rng) *ChainCfg {
-	cfg := &ChainCfg{GenTime: time.Unix(1_700_000_000, 0).UTC()}
+	cfg := &ChainCfg{GenTime: chainGenTime}
 	for i := 0; i < nUsers; i++ {
 		k := gnDetKey(fmt.Sprintf("user%d", i))
 		cfg.Keys = append(cfg.Keys, k)
